@@ -26,7 +26,7 @@ FAMILIES = {
    why_open="Real comparison semantics are float-based by design; an exact comparison is not a small change",
    zone=['emu:real-default-float']),
  'default-constructed': dict(
-   what="DEFAULT components of constructed type are compared with their default through the containers' Python-list style ==, which raises on any member that is a schema placeholder (absent OPTIONAL inside the value, or a field-less SEQUENCE/SET default, which clones into a valueless object), and is type-blind where it succeeds",
+   what="DEFAULT components of constructed type are compared with their default through the containers' Python-list style ==, which raises on any member that is a schema placeholder (absent OPTIONAL inside the value, or a field-less SEQUENCE/SET default, which clones into a valueless object), and is type-blind and order-sensitive where it succeeds (a SET OF default holding the same members in another insertion order, or members left with placeholders by an earlier read, compares unequal, so whether the component is omitted depends on how the value was built)",
    why_open="equality of constructed ASN.1 objects is list-like and type-blind by design; a structural comparison is not a small change",
    zone=['default-constructed']),
  'default-choice': dict(
@@ -104,6 +104,10 @@ for _prop, _codecs in sorted(ENC_PROPS.items()):
             _w = _w % _c[0]
         if _fam in ('default-constructed', 'default-choice'):
             _syms = ["*:encode-raised:*", "*:in-zone-output-differs-from-emulation", "*value-differs*", "*decode-raised*"]
+            if _prop == 'C04':
+                # the same comparison, seen by C04's history monitor: the omit/emit decision (or the raise) differs
+                # between two construction histories of one abstract value
+                _syms += ["*:bytes-differ-between-histories:*", "*:re-encode-raised"]
         else:
             _syms = ['%s:%s' % (c.lower(), _fam) for c in _c]
         ENTRIES.append((_prop, _fam, _syms, _w))
@@ -117,6 +121,11 @@ ENTRIES.append(('C20', 'time-fraction-zeros', ['time-fraction-zeros'], "('c20-st
 _WRAP_WHAT = ("CachingStreamWrapper (used for every non-seekable substrate) drops its cache and renumbers positions from 0 when the mark is set more than io.DEFAULT_BUFFER_SIZE octets into the cache; the decoder keeps absolute positions (original_position, bytesRead) of enclosing definite-length elements across that point")
 _WRAP_WHY = "pinned by tests/codec/test_streaming.py CachingStreamWrapperTestCase.testMarkedPositionResets, which asserts markedPosition == 0 and an empty cache after the drop"
 EXTRA = [
+ {'id': 'KF-C04-real-default-float-history', 'status': 'open', 'property': 'C04',
+  'symptom': ['*:bytes-differ-between-histories:*'], 'zone': ['default-real-huge'],
+  'what': FAMILIES['real-default-float']['what'] + ' -- seen here as: float(mantissa * base**exponent) underflows to 0.0 or not depending on how the decoder split the same number into mantissa and exponent, so one abstract value is omitted as the default after one history (decoded from a BER form with a scaled mantissa) and emitted after another',
+  'why_open': FAMILIES['real-default-float']['why_open'],
+  'witness': "('c04', ('seq', (('f0', ('real',), 'def', 0),)), {'f0': ('r', 3, 2, -1073)}, 'DER', 'plain', 'decode-variant')"},
  {'id': 'KF-C11-wrapper-renumbering-breaks-long-definite-elements', 'status': 'open', 'property': 'C11',
   'symptom': ['kind-differs:raw-vs-bytesio:*'], 'zone': ['definite-constructed-spans-a-cache-drop', 'kind:raw'],
   'what': _WRAP_WHAT + ' -- so a definite-length constructed element that starts before and ends after such a point cannot be decoded from a non-seekable stream (length mismatch / excessive components), while every seekable kind decodes it',
